@@ -54,7 +54,16 @@ func conditioningMethodReturn(
 	for _, defineArgT := range defineArgTs {
 		if defineArgT.HasDefault() {
 			variants := methodT.GetVariants()
-			return &variants[len(removeBlockTypeArgs(evaluatedArgs))]
+
+			// more arguments than declared return variants: the last one
+			idx := len(removeBlockTypeArgs(evaluatedArgs))
+			if idx >= len(variants) {
+				idx = len(variants) - 1
+			}
+
+			if idx >= 0 {
+				return &variants[idx]
+			}
 		}
 
 		if defineArgT.IsUnionType() {
